@@ -97,18 +97,18 @@ def run(ctx):
     for s in res["samples"][:3]:
         ctx.sample(s)
 
-    # self-test of the binding: a wrong expectation must be noticed
+    # self-test of the binding: an expectation no server can meet must be reported as a difference
     st = ctx.path("c06-selftest.ndjson")
     with open(st, "w") as f:
         f.write(json.dumps({"mode": "dict", "script": SCRIPT,
-                            "seq": [{"c": "c1", "m": {"type": "call", "svc": 1, "obj": 1, "act": 100, "pl": "ok"}}],
-                            "settled": {"got": {"c1": [{"type": "reply", "id": 1, "val": "1"}], "c2": []},
-                                        "closed": {"c1": False, "c2": False},
-                                        "execs": [{"id": 1, "type": "call", "conn": "c1"}], "auth": []},
+                            "seq": [{"c": "c1", "m": {"type": "call", "svc": 0, "obj": 0, "act": 8, "pl": "good"}}],
+                            "settled": {"got": {"c1": [{"type": "reply", "id": 1, "val": "A:impossible"}], "c2": []},
+                                        "closed": {"c1": False, "c2": False}, "execs": [],
+                                        "auth": [{"pair": "good", "ok": True}]},
                             "burst": []}) + "\n")
     sres = ctx.harness_json("system", ["c06-replay", st], timeout=300)
     if not sres["failures"]:
-        raise Infra("self-test: the replay accepted an unauthenticated call being executed")
+        raise Infra("self-test: the replay did not notice a response that differs from the expectation")
 
     ctx.extra.update({"sequences": nseq, "sequences_replayed": res["evaluations"], "replays": res["extra"]["replays"],
                       "child_crashes": res["extra"]["child_crashes"], "fail_count": res.get("fail_count"),
